@@ -10,6 +10,10 @@
 //   - time.Now() and the pruner's min-age ticker use the bubble's virtual clock, which the script moves with
 //     time.Sleep: block arrival times, idle periods and tick refreshes are exact and deterministic, so the
 //     min-age oracle is decided to the second without depending on the wall clock.
+//
+// TestPropPruning / TestPropMinAgeAroundReorg (this file) run on chains of 15-60 blocks; TestPropPruningAcrossWindows
+// (window_test.go) runs the same machine and oracles on pre-built base chains of 8186 / 16378 blocks, where persisted
+// 8192-block event-index windows exist (ordered tree store: treedb_test.go).
 package c16
 
 import (
@@ -409,6 +413,11 @@ type machine struct {
 	twinVer  int // bumped whenever the twin changes
 	twinAt   int
 	twinObsC node.Obs
+	twinObsK string // observation window the cached twin observation was taken over (base-chain cases)
+
+	// win: the case runs on a pre-built base chain around a real 8192-block event-index window boundary
+	// (window_test.go); nil for the ordinary short chains
+	win *winCase
 
 	written    []pair // every slot ever written by a generated block (in order of first write)
 	writtenSet map[pair]bool
@@ -672,9 +681,9 @@ func (m *machine) store(probe bool) {
 	if err := m.s.n.Store(b); err != nil {
 		m.violation("extend-failed", "pruned node rejected valid block %d (twin stored it): %v", b.Num(), err)
 	}
-	var pre *memory.Database
+	var pre imageDB
 	if probe {
-		pre = m.s.db.inner.Copy()
+		pre = m.s.db.inner.Image()
 	}
 	if m.l1 != nil {
 		m.noteBound(m.l1.BlockNumber, true)
@@ -684,7 +693,7 @@ func (m *machine) store(probe bool) {
 	m.s.db.arm(nil)
 	m.raiseHookFailure()
 	m.notePruned(before, after, "L2")
-	if probe && after > before {
+	if probe && after > before && m.probeAffordable(before, after) {
 		m.interrupt(pre, func(s *session, base *uint64) { m.sendL2(s, b.B, base) }, fmt.Sprintf("L2 head %d", b.Num()), true)
 	}
 }
@@ -710,6 +719,12 @@ func (m *machine) setL1(probe bool) {
 		num = head + uint64(rapid.IntRange(1, 20).Draw(m.rt, "l1ahead"))
 		m.c.Label("l1-ahead")
 	}
+	m.applyL1(num, probe)
+}
+
+// applyL1 records L1 head num (never below the previous one) on both nodes and delivers the event to the pruner.
+func (m *machine) applyL1(num uint64, probe bool) {
+	head := m.head()
 	if m.l1 != nil && num < m.l1.BlockNumber {
 		num = m.l1.BlockNumber // finalised L1 heads do not move back
 	}
@@ -732,11 +747,11 @@ func (m *machine) setL1(probe bool) {
 		}
 		m.l1 = h
 	}
-	var pre *memory.Database
+	var pre imageDB
 	if !eventFirst {
 		write()
 		if probe {
-			pre = m.s.db.inner.Copy()
+			pre = m.s.db.inner.Image()
 		}
 	}
 	m.s.db.arm(m.midPruneReader(m.s, m.lastF))
@@ -748,9 +763,20 @@ func (m *machine) setL1(probe bool) {
 		m.c.Label("l1-event-before-write")
 	}
 	m.notePruned(before, after, "L1")
-	if probe && after > before {
+	if probe && after > before && m.probeAffordable(before, after) {
 		m.interrupt(pre, func(s *session, base *uint64) { m.sendL1(s, h, base) }, fmt.Sprintf("L1 head %d", num), false)
 	}
+}
+
+// probeAffordable: the fault probe keeps a database image per commit of the probed prune and replays the event on
+// several copies; on the long base chains only prunes of up to 600 blocks are probed (a size, not a time: the
+// first cut of such a case deletes thousands of blocks in as many commits).
+func (m *machine) probeAffordable(before, after uint64) bool {
+	if m.win == nil || after-before <= 600 {
+		return true
+	}
+	m.c.Label("probe-skipped-large-prune")
+	return false
 }
 
 func (m *machine) idle() {
@@ -879,6 +905,14 @@ func (m *machine) revertHead(why string) {
 	}
 	if err := m.s.n.BC.RevertHead(); err != nil {
 		m.violation("revert-failed", "RevertHead of block %d (floor %d) failed on the pruned node: %v", h, m.lastF, err)
+	}
+	m.forgetHead(h)
+}
+
+// forgetHead removes the reverted head block h from the model chain.
+func (m *machine) forgetHead(h uint64) {
+	if m.win != nil {
+		m.win.noteReverted(m, h)
 	}
 	m.dropBlock(m.ch.Blocks[h])
 	m.ch = m.ch.Fork(int(h))
@@ -1171,12 +1205,12 @@ func (m *machine) raiseHookFailure() {
 	m.violation(m.hookKey, "%s", m.hookFail)
 }
 
-func (m *machine) events(n *node.Node, from, to uint64, addr *felt.Felt) ([]string, error) {
+func (m *machine) events(n *node.Node, from, to uint64, addr *felt.Felt, keys [][]felt.Felt) ([]string, error) {
 	var addrs []felt.Address
 	if addr != nil {
 		addrs = []felt.Address{felt.Address(*addr)}
 	}
-	f, err := n.BC.EventFilter(addrs, nil, func() (blockchain.PreConfirmedReader, error) { return nil, nil })
+	f, err := n.BC.EventFilter(addrs, keys, func() (blockchain.PreConfirmedReader, error) { return nil, nil })
 	if err != nil {
 		return nil, err
 	}
@@ -1208,13 +1242,24 @@ func (m *machine) events(n *node.Node, from, to uint64, addr *felt.Felt) ([]stri
 }
 
 func (m *machine) compareEvents(where string, s *session, from, to uint64, addr *felt.Felt, must bool, f uint64) {
+	m.compareEventsK(where, s, from, to, addr, nil, must, f)
+}
+
+// compareEventsK: event query [from, to] filtered by an optional address and optional per-position key
+// alternatives, on the pruned node and on the unpruned twin.
+func (m *machine) compareEventsK(where string, s *session, from, to uint64, addr *felt.Felt, keys [][]felt.Felt, must bool, f uint64) {
 	defer prof("events", wall())
-	ep, errP := m.events(s.n, from, to, addr)
-	et, errT := m.events(m.twin, from, to, addr)
+	ep, errP := m.events(s.n, from, to, addr, keys)
+	et, errT := m.events(m.twin, from, to, addr, keys)
 	if errT != nil {
 		stats.HarnessError("twin event query %d-%d: %v", from, to, errT)
 	}
-	desc := fmt.Sprintf("%s: events %d-%d addr=%v (floor %d)", where, from, to, addr != nil, f)
+	desc := fmt.Sprintf("%s: events %d-%d addr=%v keys=%d (floor %d)", where, from, to, addr != nil, len(keys), f)
+	if len(et) > 0 {
+		m.c.Info("event-query-with-matches")
+	} else {
+		m.c.Info("event-query-without-matches")
+	}
 	if errP != nil {
 		if must {
 			m.violation("events-unavailable", "%s failed: %v", desc, errP)
@@ -1232,12 +1277,28 @@ func (m *machine) compareEvents(where string, s *session, from, to uint64, addr 
 }
 
 // twinObs is the twin's (state-less) observation, cached until the twin changes.
-func (m *machine) twinObs() node.Obs {
+func (m *machine) twinObs(f uint64) node.Obs {
 	defer prof("twinObs", wall())
-	if m.twinObsC == nil || m.twinAt != m.twinVer {
-		m.twinObsC, m.twinAt = m.twin.Observe(m.ids), m.twinVer
+	if k := m.obsKey(f); m.twinObsC == nil || m.twinAt != m.twinVer || m.twinObsK != k {
+		m.twinObsC, m.twinAt, m.twinObsK = m.observe(m.twin, f), m.twinVer, k
 	}
 	return m.twinObsC
+}
+
+// observe evaluates the state-less Reader API of n: over every block of the chain for the ordinary short
+// chains; for base-chain cases over the windows of obsRanges(f) (see window_test.go).
+func (m *machine) observe(n *node.Node, f uint64) node.Obs {
+	if m.win == nil {
+		return n.Observe(m.ids)
+	}
+	return m.observeWindows(n, f)
+}
+
+func (m *machine) obsKey(f uint64) string {
+	if m.win == nil {
+		return ""
+	}
+	return fmt.Sprint(m.obsRanges(f))
 }
 
 // checkNode runs oracles (2) and (3) for session s (the main pruned node or an interrupted copy).
@@ -1251,7 +1312,7 @@ func (m *machine) checkNode(where string, s *session, f uint64, light bool) {
 		return
 	}
 	head := m.head()
-	o := obsPair{p: s.n.Observe(m.ids), t: m.twinObs()}
+	o := obsPair{p: m.observe(s.n, f), t: m.twinObs(f)}
 	m.compareObs(where, o, f)
 	// state views: head state; floor-1 (by number and by hash) and floor; drawn retained and pruned blocks
 	type vm struct {
@@ -1295,6 +1356,10 @@ func (m *machine) checkNode(where string, s *session, f uint64, light bool) {
 		m.compareStateView(where, s, v.v, v.must, f)
 	}
 	// event queries
+	if m.win != nil {
+		m.win.eventChecks(m, where, s, f, light)
+		return
+	}
 	if head >= f {
 		m.compareEvents(where, s, f, head, nil, true, f)
 		if !light {
@@ -1323,8 +1388,8 @@ func (m *machine) query() {
 // summary is the observation used to compare two copies of the pruned node with each other (oracle 5).
 func (m *machine) summary(s *session) node.Obs {
 	defer prof("summary", wall())
-	o := s.n.Observe(m.ids) // whole Reader API without state
 	f, _, _ := oldest(s.db)
+	o := m.observe(s.n, f) // whole Reader API without state
 	o["oldest-retained"] = fmt.Sprint(f)
 	if m.ch.Height() == 0 {
 		return o
@@ -1349,7 +1414,7 @@ func (m *machine) summary(s *session) node.Obs {
 	}
 	for _, from := range []uint64{0, f - 1, f, f + 1} {
 		if from <= head {
-			evs, err := m.events(s.n, from, head, nil)
+			evs, err := m.events(s.n, from, head, nil, nil)
 			o[fmt.Sprintf("events/%d-", from)] = val(strings.Join(evs, ";"), err)
 		}
 	}
@@ -1363,7 +1428,7 @@ func (m *machine) summary(s *session) node.Obs {
 //
 // Every interrupted copy is restarted (new Blockchain, floor, Pruner), must satisfy oracles (2),(3) as it is,
 // then receives the same event again and must end observationally equal to the reference copy.
-func (m *machine) interrupt(pre *memory.Database, deliver func(s *session, base *uint64), what string, l2 bool) {
+func (m *machine) interrupt(pre imageDB, deliver func(s *session, base *uint64), what string, l2 bool) {
 	defer prof("interrupt", wall())
 	if m.probes >= stats.Pick(2, 3) {
 		return
@@ -1374,13 +1439,13 @@ func (m *machine) interrupt(pre *memory.Database, deliver func(s *session, base 
 		cf.l2Per = 1 // a fresh pruner must prune on this very event
 	}
 	f0, _ := floorOf(pre, 0)
-	ref := newFdb(pre.Copy())
-	var images []*memory.Database
+	ref := newFdbOn(pre.Image())
+	var images []imageDB
 	sr, err := m.startSession(ref, cf)
 	if err != nil {
 		m.violation("restart-failed", "start on a copy of the database before %s failed: %v", what, err)
 	}
-	ref.arm(func(int) { images = append(images, ref.inner.Copy()) })
+	ref.arm(func(int) { images = append(images, ref.inner.Image()) })
 	baseR := f0
 	deliver(sr, &baseR)
 	ref.arm(nil)
@@ -1423,9 +1488,9 @@ func (m *machine) interrupt(pre *memory.Database, deliver func(s *session, base 
 				continue
 			}
 			if mode == "crash" {
-				d = newFdb(images[k-1].Copy())
+				d = newFdbOn(images[k-1].Image())
 			} else {
-				d = newFdb(pre.Copy())
+				d = newFdbOn(pre.Image())
 				sc, err := m.startSession(d, cf)
 				if err != nil {
 					m.violation("restart-failed", "%s: start failed: %v", where, err)
@@ -1500,16 +1565,23 @@ func bucket(n int) string {
 // ---------------------------------------------------------------------------------------------------------
 // oracle (4): revert down to the floor, below it, and extend again
 
-func (m *machine) deepRevert() {
+func (m *machine) deepRevert() { m.deepRevertTo(0) }
+
+// deepRevertTo reverts down to block stop (or to the floor, whichever is higher), optionally restarts there,
+// tries to go below the floor when it stands on it, and extends the chain again with a different fork.
+func (m *machine) deepRevertTo(stop uint64) {
 	f := m.F()
 	if m.ch.Height() == 0 || m.head() < f {
 		return
 	}
+	if stop < f {
+		stop = f
+	}
 	m.c.Label("deep-revert")
 	m.deep = true
-	m.logf("deep revert from %d down to floor %d", m.head(), f)
+	m.logf("deep revert from %d down to %d (floor %d)", m.head(), stop, f)
 	steps := 0
-	for m.head() > f {
+	for m.head() > stop {
 		m.revertHead("down to the floor")
 		steps++
 		if steps%4 == 0 && rapid.Bool().Draw(m.rt, "checkDuringRevert") {
@@ -1517,19 +1589,22 @@ func (m *machine) deepRevert() {
 		}
 	}
 	m.used("revert")
-	m.checkNode("reverted down to the floor", m.s, f, false)
-	if steps > 0 {
+	m.checkNode(fmt.Sprintf("reverted down to %d", stop), m.s, f, false)
+	if steps > 0 && stop == f {
 		m.c.Label("reverted-to-floor")
 	}
 	if rapid.IntRange(0, 2).Draw(m.rt, "restartAtFloor") == 0 {
 		m.restart()
-		m.checkNode("restarted at the floor", m.s, f, true)
+		m.checkNode("restarted after the deep revert", m.s, f, true)
 	}
-	if f > 0 && rapid.IntRange(0, 2).Draw(m.rt, "belowFloor") > 0 {
+	if f > 0 && stop == f && rapid.IntRange(0, 2).Draw(m.rt, "belowFloor") > 0 {
 		m.belowFloor(f)
 	}
 	// extend again
 	n := rapid.IntRange(1, 3).Draw(m.rt, "extendAfterRevert")
+	if m.win != nil {
+		n = m.win.extendAfterRevert(m, n)
+	}
 	for i := 0; i < n; i++ {
 		m.store(false)
 	}
@@ -1541,14 +1616,13 @@ func (m *machine) deepRevert() {
 // revert needs pruned data. Either must fail cleanly (node unchanged) or behave exactly like the twin.
 func (m *machine) belowFloor(f uint64) {
 	m.c.Label("revert-below-floor-attempt")
-	light := *m.ids
-	before := m.s.n.Observe(&light)
+	before := m.observe(m.s.n, f)
 	h := m.head()
 	m.logf("revert #%d = the oldest retained block (head would fall below the floor)", h)
 	err := m.s.n.BC.RevertHead()
 	if err != nil {
 		m.c.Label("revert-of-floor-block-refused")
-		if d := node.Diff(m.s.n.Observe(&light), before, 4); len(d) > 0 {
+		if d := node.Diff(m.observe(m.s.n, f), before, 4); len(d) > 0 {
 			m.violation("failed-revert-changed-node", "RevertHead of the floor block %d failed (%v) but changed the node:\n   %s", h, err, strings.Join(d, "\n   "))
 		}
 		return
@@ -1558,21 +1632,20 @@ func (m *machine) belowFloor(f uint64) {
 	if err := m.twin.BC.RevertHead(); err != nil {
 		stats.HarnessError("twin RevertHead(%d): %v", h, err)
 	}
-	m.dropBlock(m.ch.Blocks[h])
-	m.ch = m.ch.Fork(int(h))
+	m.forgetHead(h)
 	m.checkNode("head reverted below the floor", m.s, f, true)
 	if m.ch.Height() == 0 {
 		return
 	}
 	// a second revert would need the pruned block f-1
-	before = m.s.n.Observe(&light)
+	before = m.observe(m.s.n, f)
 	err = m.s.n.BC.RevertHead()
 	m.logf("revert #%d (pruned block) -> %v", m.head(), err)
 	if err == nil {
 		m.violation("revert-of-pruned-block-succeeded", "RevertHead of block %d, which lies below the floor %d (its state update and transactions are pruned), reported success", m.head(), f)
 	}
 	m.c.Label("revert-of-pruned-block-refused")
-	if d := node.Diff(m.s.n.Observe(&light), before, 4); len(d) > 0 {
+	if d := node.Diff(m.observe(m.s.n, f), before, 4); len(d) > 0 {
 		m.violation("failed-revert-changed-node", "RevertHead of pruned block %d failed (%v) but changed the node:\n   %s", m.head(), err, strings.Join(d, "\n   "))
 	}
 }
